@@ -234,3 +234,35 @@ def a5(ctx):
     av = [e for e in res.log if e["kind"] == "call" and e["callee"].endswith("AlignedVec::new")]
     ok = len(av) == 1 and tag(av[0]["args"][1]) == "max" and const(8) in av[0]["args"][1][1:] and any("maximum_alignment" in show(x) for x in av[0]["args"][1][1:])
     yield Ob(key_of("C03-A5", b.path, "vec-alignment"), ok, "AlignedVec::new(cap, %s)" % (short(av[0]["args"][1], 80) if av else "?"), b.loc())
+
+
+@rule("C03-A6", "C03", 2, "file-backed arenas: the mapping offset is checked against the alignment the arena promises (memmap2 returns page boundary + offset % page, so the base "
+      "address is only as aligned as the offset): an offset that is not a multiple of max(maximum_alignment, align_of Header) must be refused, otherwise every aligned "
+      "offset is a misaligned address and the in-file header is read through a misaligned pointer", configs=("memmap", "memmap-nooverflow", "memmap-tracing"), also=("C04", "C16"))
+def a6(ctx):
+    for name in ("map_mut_in", "map_in"):
+        b = ctx.facts.one(r"^memory::Memory::<R, PR, H>::%s$" % name)
+        ev, res = ctx.eval(b, no_inline=(r"\{closure",))
+        maps = [e for e in res.log if e["kind"] == "call" and not e["chain"] and re.search(r"FnOnce.*::call_once$", e["callee"])]
+        ok = False
+        det = []
+        def is_guard(f):
+            s_ = show(f)
+            return f[0] == "cmp" and f[1] == "Eq" and "rem(" in s_ and "offset" in s_
+        for e in maps[:1]:
+            fs = ctx.facts_of(ev, e)
+            for f in fs:
+                if is_guard(f):
+                    ok = True
+                    det.append(short(f[2], 80))
+            # the test may live in a helper called with `?`: then the helper's Ok return carries the fact and the `?` makes it dominate the mapping call
+            for c in res.log:
+                if c["kind"] == "call" and c.get("inlined") and not c["chain"] and c["seq"] < e["seq"] and b.dominates(c["bb"], e["bb"]):
+                    okf = [f for f in callee_variant_facts(ctx, ev, c, ("Ok",)) if is_guard(f)]
+                    r_ = c["result"]
+                    errs = [p_[0] for n_, p_ in (dict(r_[2]).items() if tag(r_) == "vsum" else []) if n_ == "Err" and p_]
+                    passed = any(f[0] == "discr" and f[2] in (("eq", 0), ("ne", (1,))) and (mentions(f[1], r_) or any(mentions(f[1], x_) for x_ in errs)) for f in fs)
+                    if okf and passed:
+                        ok = True
+                        det.append("%s: %s" % (c["callee"].split("::")[-1], short(okf[0][2], 70)))
+        yield Ob(key_of("C03-A6", b.path, "offset-aligned"), ok and bool(maps), "the mapping call is reached only when offset %% alignment == 0: %s" % (det or "NO such guard"), b.loc())
